@@ -141,7 +141,7 @@ fn subst_dbg(sb: &Subst) -> Sx {
 
 pub fn run_case(case: &Sx) -> (Sx, Sx) {
     let c = case.clone();
-    let r = in_fresh_thread(move || {
+    let r = in_fresh_thread_limited(move || {
         let l = c.as_lst();
         let mut obs = vec![sym("obs")];
         let mut extra = vec![sym("extra")];
@@ -219,7 +219,7 @@ pub fn run_case(case: &Sx) -> (Sx, Sx) {
         extra.push(lst(vec![sym("stats"), lst(vec![sym("sym"), sbool(sym_c)]), lst(vec![sym("red"), sbool(red_c)]), lst(vec![sym("classes"), num(h.eg.ids().len() as u64)])]));
         (lst(obs), lst(extra))
     });
-    r.unwrap_or_else(|_| (sym("harness-thread-panic"), sym("harness-thread-panic")))
+    r.unwrap_or_else(|e| if e.0 == "timeout" { (timeout_obs(), lst(vec![sym("extra"), sym("timeout")])) } else { (sym("harness-thread-panic"), sym("harness-thread-panic")) })
 }
 
 fn slot_arg(s: u64) -> Sx { lst(vec![sym("s"), num(s)]) }
